@@ -1,3 +1,5 @@
+//go:build c19 || allprops
+
 package main
 
 import (
